@@ -852,6 +852,9 @@ class KafkaClient(object):
 
         if resp:
             return KafkaCodec.decode_api_versions_response(resp)
+        elif self._api_versions:
+            # An earlier discovery succeeded: answer from it instead of forgetting it.
+            return ApiVersionResponse(0, self._api_versions)
         else:
             err = ApiVersionResponse(-1, [])
             self._handle_api_version_update(err)
